@@ -53,6 +53,14 @@ def gae_native_replay(model):
         rew, val = rng.randn(T).astype(np.float32), rng.randn(T).astype(np.float32)
         don = rng.rand(T) < 0.4
         lv, lam, g = np.float32(rng.randn()), np.float32(rng.rand()), np.float32(rng.rand())
+        # edge values of the two discount parameters first: lambda = 0 (TD errors), lambda = 1 (Monte-Carlo), gamma = 0 / 1, and the counter-model's own values
+        edge = [(0.0, 0.9), (1.0, 0.9), (0.0, 1.0), (0.5, 0.0), (1.0, 1.0), (0, 0.9)]
+        if trial < len(edge):
+            lam, g = edge[trial]
+            T = max(T, 3)
+            rew, val, don = rng.randn(T).astype(np.float32), rng.randn(T).astype(np.float32), rng.rand(T) < 0.3
+        elif trial == len(edge) and model is not None:
+            lam, g = kit.model_float(model, "gae_lambda", float(lam)), kit.model_float(model, "gamma", float(g))
         buf = RolloutBuffer(jnp.zeros((T, 2)), jnp.zeros((T,)), rew, don, jnp.zeros((T,)), val, GPState(jnp.zeros((T, 1))))
         out = buf.compute_returns_and_advantages(lv, lam, g)
         A = np.zeros(T + 1)
